@@ -31,7 +31,7 @@ pub fn install_panic_hook() {
 
 const BYTE_ARGS: &[&str] = &[
     "ikm", "rng", "sk", "pk", "bytes", "psk", "pskid", "pkr", "sks", "pks", "skr", "enc", "info",
-    "pt", "aad", "ct", "tag", "exctx", "key", "bn", "es", "pks2", "pks3", "pks4",
+    "pt", "aad", "ct", "tag", "exctx", "key", "bn", "es", "pks2", "pks3", "pks4", "table",
 ];
 
 /// Transformed copies of a secret that an implementation might keep around instead of (or besides)
